@@ -26,7 +26,7 @@ TRUSTED = [
 ]
 
 
-def par_eval(ctx, pid, imports, case_type, fn, terms, shard=600, workers=4):
+def par_eval(ctx, pid, imports, case_type, fn, terms, shard=300, workers=8):
     """vf.coq_eval_cases on shards, several coqc processes at a time (elaborating the case terms dominates)."""
     from concurrent.futures import ThreadPoolExecutor
     chunks = [(s, terms[s:s + shard]) for s in range(0, len(terms), shard)]
@@ -54,6 +54,9 @@ def gen_tables(ctx):
 
 
 def run(ctx):
+    import time
+    T = {}
+    t0 = time.time()
     broken, failures = [], []
     err = gen_tables(ctx)
     if err:
@@ -73,17 +76,20 @@ def run(ctx):
     if not proofs["ok"]:
         broken.append("proof obligations of Props/C07.v do not check: %s" % (proofs.get("broken_files") or proofs.get("nonstd_axioms") or proofs["log"][-1200:]))
 
+    T['proofs+audit'] = round(time.time() - t0, 1); t0 = time.time()
     # ---- harness A: package query (correspondence + oracle)
-    ha = vf.go_harness(ctx, "query", "TestVerifC07$", ["query/zz_verif_c07_test.go"], ctx.n(700, 6000),
+    ha = vf.go_harness(ctx, "query", "TestVerifC07$", ["query/zz_verif_c07_test.go"], ctx.n(700, 4000),
                        timeout=600 if ctx.tier == "quick" else 3000, out_name="outA.jsonl")
     if ha["rc"] != 0:
         broken.append("harness TestVerifC07 failed (rc=%d): %s" % (ha["rc"], ha["log"][-1500:]))
     cases = [r for r in ha["records"] if r.get("kind") == "case"]
+    T['harnessA'] = round(time.time() - t0, 1); t0 = time.time()
     # ---- harness B: package index (oracle: search / list / JSON API)
-    hb = vf.go_harness(ctx, "index", "TestVerifC07b$", ["index/zz_verif_c07b_test.go"], ctx.n(300, 4000),
+    hb = vf.go_harness(ctx, "index", "TestVerifC07b$", ["index/zz_verif_c07b_test.go"], ctx.n(300, 2500),
                        timeout=600 if ctx.tier == "quick" else 3000, out_name="outB.jsonl")
     if hb["rc"] != 0:
         broken.append("harness TestVerifC07b failed (rc=%d): %s" % (hb["rc"], hb["log"][-1500:]))
+    T['harnessB'] = round(time.time() - t0, 1); t0 = time.time()
     stages = [r for r in hb["records"] if r.get("kind") == "stage"]
     jcases = [r for r in hb["records"] if r.get("kind") == "jcase"]
     for r in ha["records"] + hb["records"]:
@@ -110,7 +116,9 @@ def run(ctx):
         broken.append("harness B produced no JSON handler cases")
     if not stages and hb["rc"] == 0:
         broken.append("harness B produced no stage records")
+    T['model-eval'] = round(time.time() - t0, 1)
     cov = dict(
+        phase_seconds=T,
         evaluations=len(cases) + len(stages),
         distinct_nontrivial=vf.distinct_nontrivial(cases) + vf.distinct_nontrivial(stages),
         rule=RULE,
